@@ -13,7 +13,23 @@ from .entries import is_eval_method_name
 
 # provenance lattice of the accumulated solution set
 S_EMPTY, S_SEED, S_SUBSET, S_OTHER, S_INIT = ("ss", "EMPTY"), ("ss", "SEED"), ("ss", "SUBSET"), ("ss", "OTHER"), ("ss", "STALE")
+S_LOSSY = ("ss", "LOSSY")
 C_EMPTY, C_NONEMPTY = ("cur", "EMPTY"), ("cur", "NONEMPTY")
+
+
+def _lossless_key(key: ast.AST, elem: str) -> bool:
+    """The key a row is compared by determines the row: the row itself, or a function of its items() - not of its
+    values() or keys() alone (two rows that bind the same objects to different variables are different rows)."""
+    if isinstance(key, ast.Name) and key.id == elem:
+        return True
+    calls = [c for c in ast.walk(key) if isinstance(c, ast.Call) and isinstance(c.func, ast.Attribute)
+             and isinstance(c.func.value, ast.Name) and c.func.value.id == elem]
+    attrs = {c.func.attr for c in calls}
+    if "items" in attrs:
+        return True
+    if attrs & {"values", "keys"}:
+        return False
+    return True
 
 
 def _mentions(e: ast.AST, names: Set[str]) -> bool:
@@ -94,6 +110,8 @@ def classify_acc_assignment(value: ast.AST, acc: str, cur: str, derived: Set[str
                 if not (isinstance(t, ast.Compare) and len(t.ops) == 1 and isinstance(t.ops[0], ast.In)
                         and _mentions(t.left, {g.target.id}) and _mentions(t.comparators[0], derived)):
                     ok = False
+                elif not _lossless_key(t.left, g.target.id):
+                    return S_LOSSY
             if ok:
                 return S_SUBSET
     if isinstance(value, ast.BinOp) and isinstance(value.op, ast.BitAnd) and (is_acc(value.left) or is_acc(value.right)) \
@@ -166,7 +184,7 @@ def rule_forall_monotone(db: ProgramDB) -> List[Instance]:
                 return st if not outcome else None
             if v in (C_NONEMPTY,):
                 return st if outcome else None
-            if v in (S_SEED, S_SUBSET, S_OTHER, S_INIT):
+            if v in (S_SEED, S_SUBSET, S_OTHER, S_INIT, S_LOSSY):
                 if not outcome:
                     return st.set(k, S_EMPTY)
                 return st
@@ -204,7 +222,11 @@ def rule_forall_monotone(db: ProgramDB) -> List[Instance]:
     def _judge_iteration_end(st, idx):
         ss, touched, c = st.get(ACC), st.get("$touched"), st.get(cur)
         first = idx == 0
-        if ss == S_OTHER:
+        if ss == S_LOSSY:
+            violations.append(("lossy", "rows of different universal values are compared by a key that does not determine the "
+                                        "row (values()/keys() only): a binding is kept because some *other* binding of the same "
+                                        "objects holds for the next universal value", 0))
+        elif ss == S_OTHER:
             violations.append(("grow", "the accumulated set is replaced by something that is not a filter of itself by "
                                        "the current value's bindings (it can grow)", 0))
         elif touched == FALSE and ss != S_EMPTY:
@@ -243,6 +265,7 @@ def rule_forall_monotone(db: ProgramDB) -> List[Instance]:
     msgs = {v[0]: v[1] for v in violations}
     for k, label in (("grow", "only ever shrinks"), ("skip", "no universal value skipped"), ("first", "first value seeds"),
                      ("reseed", "later values intersect"), ("emptyvalue", "empty value empties the result"),
+                     ("lossy", "rows compared by a key that determines them"),
                      ("break", "early exit only when empty")):
         bad = k in kinds
         out.append(inst("FORALL-MONOTONE", VIOLATION if bad else HOLDS, m, f"ForAll._evaluate__[{label}]",
